@@ -74,11 +74,19 @@ class Scenario:
         self.count = 0
 
     def register(self, ev, langs, ret, how):
-        self.count += 1
-        hid = self.count
-        w = ret == 100          # 100: declines (returns UNPROCESSED) after having written out_data
-        ret = 0 if w else ret
-        h = make_handler(hid, ret, self.rec, w)
+        if how == "again" and getattr(self, "last", None) is not None:
+            # the callable registered last is registered once more (another entry of the registry with the same handler)
+            hid, ret, w, h = self.last
+            how = "list"
+        else:
+            self.count += 1
+            hid = self.count
+            w = ret == 100          # 100: declines (returns UNPROCESSED) after having written out_data
+            ret = 0 if w else ret
+            h = make_handler(hid, ret, self.rec, w)
+            if how == "again":
+                how = "list"
+        self.last = (hid, ret, w, h)
         real_langs = [LANG[x] for x in langs]
         if how == "set":
             arg = set(real_langs)
@@ -115,11 +123,23 @@ def interleaved(forest, alphabet, depth, evs, langs=("py", "js")):
 
     def rec(parent, hist, d):
         ops = [("notify", e, lg) for e in evs for lg in langs] + [(e, ls, r) for (e, ls, r) in alphabet]
+        # the same callable once more, for another language set and for the same one
+        if any(h[0] != "notify" for h in hist):
+            ops += [(evs[0], ls, "again") for ls in (("js",), ("py",), ("%",))]
         for op in ops:
             s = build(hist)
             if op[0] == "notify":
                 ev = s.notify(op[1], op[2])
                 item = op
+            elif op[2] == "again":
+                ev = s.register(op[0], op[1], 0, "again")
+                item = (op[0], op[1], 0, "again")
+                k = forest.add(parent, ev, d)
+                if d < depth:
+                    rec(k, hist + [item], d + 1)
+                else:
+                    forest.leaves += 1
+                continue
             else:
                 counter[0] += 1
                 how = how_for(op[1], counter[0])
